@@ -182,9 +182,11 @@ def _c3(cls: ClassInfo) -> list:
 
 class Program:
     def __init__(self, root: str = "/repo", overlays: Optional[Dict[str, str]] = None, pkg: str = PKG,
-                 extra_files: Optional[Dict[str, str]] = None):
+                 extra_files: Optional[Dict[str, str]] = None, inline: bool = True):
         self.root = root
         self.pkg = pkg
+        self._ctor = (root, overlays, pkg, extra_files)
+        self._raw = None
         self.modules: Dict[str, Module] = {}
         self.by_relpath: Dict[str, Module] = {}
         self.classes: Dict[str, ClassInfo] = {}
@@ -229,6 +231,21 @@ class Program:
         for c in self.classes.values():
             self._resolve_bases(c)
         self._dead = None
+        self.inliner = None
+        if inline:
+            # normal form: private helpers are inlined into their callers (kdverif/inline.py)
+            from .inline import normalise
+            self.inliner = normalise(self)
+
+    @property
+    def raw(self) -> "Program":
+        """The same sources without the helper-inlining normal form (for rules that summarise a helper as a unit)."""
+        if self.inliner is None:
+            return self
+        if self._raw is None:
+            root, overlays, pkg, extra = self._ctor
+            self._raw = Program(root, overlays=overlays, pkg=pkg, extra_files=extra, inline=False)
+        return self._raw
 
     # ------------------------------------------------------------------------------------------
     def digest(self, relpaths=None) -> str:
